@@ -462,12 +462,12 @@ def huge_value(alg, blk, off, d):
 
 def huge_specs(seed, tier):
     """-> [(build, alg, mode)].  Quick: one one-call case of SHA-1 (one-shot
-    or single Update, by seed; SHA1_Buf is Init + one SHA1_Update + Final),
-    one of SHA-256 (SHA-NI build) and CRC32C (both builds, with the 1 GiB
-    pieces control); thorough: every algorithm x {buf, upd} and
+    or single Update, by seed; SHA1_Buf is Init + one SHA1_Update + Final; on
+    the build without sanitizers, see build_nosan), one of SHA-256 (SHA-NI
+    build) and CRC32C (both builds, with the 1 GiB pieces control); thorough: every algorithm x {buf, upd} and
     CRC32C x {upd, gib} on both builds."""
     if tier == 'quick':
-        return [('default', 'sha1', 'buf' if seed % 2 else 'upd'),
+        return [('nosan', 'sha1', 'buf' if seed % 2 else 'upd'),
                 ('default', 'sha256', 'upd' if seed % 2 else 'buf'),
                 ('default', 'crc32c', 'upd'), ('default', 'crc32c', 'gib'),
                 ('portable', 'crc32c', 'upd')]
@@ -548,6 +548,14 @@ def build(ctx, portable=False):
                               cpu=(['X86_CPUID'] if portable else None))
 
 
+def build_nosan(ctx):
+    """The same sources and driver at -O1 without the sanitizers, used by the
+    quick tier for the ONE SHA-1 call of 2^32+d bytes only (ASan+UBSan slow the
+    portable SHA-1 compression down about 4 times: ~100 s for 4 GiB)."""
+    objs = ctx.builder.lib('plain', SRCS, extra=('-O1',))
+    return ctx.builder.driver('c01n', 'plain', ['c01_hash.c'], objs, libs=(), extra=('-O1',))
+
+
 def run(ctx):
     _selftest()
     exe = build(ctx)
@@ -556,6 +564,8 @@ def run(ctx):
     seeds = core.shard_seeds(ctx.seed, 'C01', 2 * n)
     exes = {'default': exe, 'portable': exep}
     hc = huge_cases(ctx.seed, ctx.tier)
+    if any(b == 'nosan' for b, _ in hc):
+        exes['nosan'] = build_nosan(ctx)
     lc = long_cases(ctx.seed, ctx.tier)
     # the 4 GiB calls are the longest jobs: they start first and run beside
     # the long streams and the shards
@@ -583,7 +593,9 @@ def run(ctx):
         ctx.count('overlap_cases_' + kind[3:], sum(r['overlap'].get(kind, 0) for r in res))
     if any(r['evals'] == 0 for r in hres) and not ctx.violations and not ctx.known_hits:
         ctx.note_inconclusive('a single call of 2^32+d bytes gave no answer')
-    ctx.cov['builds'] = ['default (SHA-NI / SSE2 / SSE4.2 as the CPU allows)', 'portable (no CPU feature compiled in)']
+    ctx.cov['builds'] = ['default (SHA-NI / SSE2 / SSE4.2 as the CPU allows)', 'portable (no CPU feature compiled in)'] + \
+        (['nosan (default CPU features, -O1, no sanitizers; only the quick SHA-1 call of 2^32+d bytes)']
+         if 'nosan' in exes else [])
     ctx.count('long_streams_over_2^32_bits', sum(r['evals'] for r in lres))
     ctx.cov['rule'] = ('cases = (algorithm, message, partition into update calls[, key | salt,c,dkLen | alignment]); '
                        'every length 0..600 x {single, bytewise, random} partitions, every HMAC key length 0..200, '
@@ -596,8 +608,8 @@ def run(ctx):
                        '(on the unchanged library every such overlap gives the specified value: all inputs are absorbed before the first output byte is stored; '
                        'not generated: outputs overlapping a context structure, and a PBKDF2 buf overlapping salt AND password at once); '
                        'ONE call of 2^32+d bytes (d random, message start 0..63 bytes off a page boundary; a 2 MiB memory file mapped 2049 times back to back, so no 4 GiB are allocated): '
-                       'quick = SHA1_Buf or one SHA1_Update (by seed), one SHA-256 call (SHA-NI build), one CRC32C_Update on both builds and the same bytes in 1 GiB pieces; '
-                       'thorough = {SHA-256, SHA-1, MD5} x {*_Buf, one *_Update} and CRC32C x {one Update, 1 GiB pieces} on both builds; expected = hashlib fed the same periodic bytes, '
+                       'quick = SHA1_Buf or one SHA1_Update (by seed; this one case runs the same sources built -O1 WITHOUT sanitizers, which slow the portable SHA-1 down to ~100 s per 4 GiB), one SHA-256 call (SHA-NI build), one CRC32C_Update on both builds and the same bytes in 1 GiB pieces; '
+                       'thorough = {SHA-256, SHA-1, MD5} x {*_Buf, one *_Update} and CRC32C x {one Update, 1 GiB pieces} on both (sanitized) builds; expected = hashlib fed the same periodic bytes, '
                        'CRC32C = the polynomial algebra evaluated on the periodic structure (state after one more 2 MiB period = state * x^(8*2^21) + period, mod the polynomial), '
                        'so single call and pieces are each compared with the exact value; '
                        'non-trivial = >= 2 update calls or a length within 9 of a 64-byte boundary (all HMAC/PBKDF2/CRC cases count); '
@@ -610,6 +622,15 @@ def run(ctx):
 
 
 def replay(ctx, case):
+    if case['line'].startswith('G '):
+        # SHA-1 / MD5 are the same code in both builds
+        exes = [build_nosan(ctx), build(ctx)] + \
+            ([build(ctx, True)] if case['line'].split()[1] in ('sha256', 'crc32c') else [])
+        for exe in exes:
+            _replay1(ctx, case, exe)
+            if ctx.violations:
+                break
+        return
     for portable in (False, True):
         _replay1(ctx, case, build(ctx, portable))
 
